@@ -443,6 +443,17 @@ func kdfCase(r *vh.Run, name string, seed [32]byte, indices []uint64, tags ...st
 			c.Oracle("keyfromseed-index-collision", "seed %x: indices %d and %d give the same key", seed, j, i)
 		}
 		seen[string(k1)] = i
+		// the caller owns the returned key: wiping it (what careful callers do with secrets) must
+		// not change what a later derivation of the same (seed, index) returns
+		want := append([]byte(nil), k1...)
+		for j := range k1 {
+			k1[j] = 0
+		}
+		if k3 := wallet.KeyFromSeed(&seed, i); !bytes.Equal(k3, want) {
+			c.Oracle("keyfromseed-result-aliased", "KeyFromSeed(%x, %d): after the caller wiped the key it was given, deriving again returns %x, the first derivation gave %x", seed, i, []byte(k3), want)
+		} else if !bytes.Equal(k2, want) {
+			c.Oracle("keyfromseed-result-aliased", "KeyFromSeed(%x, %d): wiping one returned key changed another returned key to %x", seed, i, []byte(k2))
+		}
 	}
 	r.Add(c)
 }
